@@ -29,14 +29,14 @@ type CloneCase struct {
 var subC20 = register("C20", "clone", checkC20)
 
 func fullObs(p *rtp.Packet) string {
-	s := fmt.Sprintf("V%d P%v X%v M%v PT%d seq%d ts%d ssrc%d csrc%v prof%#x pad%d payload=%x ids=%v",
+	s := fmt.Sprintf("V%d P%v X%v M%v PT%d seq%d ts%d ssrc%d csrc%v prof%#x pad%d payload=%s ids=%v",
 		p.Version, p.Padding, p.Extension, p.Marker, p.PayloadType, p.SequenceNumber, p.Timestamp, p.SSRC,
-		append([]uint32{}, p.CSRC...), p.ExtensionProfile, p.PaddingSize, p.Payload, p.GetExtensionIDs())
+		append([]uint32{}, p.CSRC...), p.ExtensionProfile, p.PaddingSize, hb(p.Payload), p.GetExtensionIDs())
 	for _, id := range p.GetExtensionIDs() {
-		s += fmt.Sprintf(" %d=%x", id, p.GetExtension(id))
+		s += fmt.Sprintf(" %d=%s", id, hb(p.GetExtension(id)))
 	}
 	b, err := p.Marshal()
-	s += fmt.Sprintf(" marshal=%x err=%v", b, err)
+	s += fmt.Sprintf(" marshal=%s err=%v", hb(b), err)
 
 	return s
 }
@@ -46,10 +46,10 @@ func hdrObs(h *rtp.Header) string {
 		h.Version, h.Padding, h.Extension, h.Marker, h.PayloadType, h.SequenceNumber, h.Timestamp, h.SSRC,
 		append([]uint32{}, h.CSRC...), h.ExtensionProfile, h.GetExtensionIDs())
 	for _, id := range h.GetExtensionIDs() {
-		s += fmt.Sprintf(" %d=%x", id, h.GetExtension(id))
+		s += fmt.Sprintf(" %d=%s", id, hb(h.GetExtension(id)))
 	}
 	b, err := h.Marshal()
-	s += fmt.Sprintf(" marshal=%x err=%v", b, err)
+	s += fmt.Sprintf(" marshal=%s err=%v", hb(b), err)
 
 	return s
 }
@@ -318,6 +318,9 @@ func genCloneCase(t *rapid.T) *CloneCase {
 	// keep the cases small: every observation renders and marshals the whole packet
 	if len(c.Model.Payload) > 300 {
 		c.Model.Payload = c.Model.Payload[:300]
+	}
+	if len(c.Model.Exts) > 40 {
+		c.Model.Exts = c.Model.Exts[:40]
 	}
 	if c.Model.ExtKind == "legacy" && len(c.Model.Exts[0].Val) > 256 {
 		c.Model.Exts[0].Val = c.Model.Exts[0].Val[:256]
